@@ -35,6 +35,19 @@ PROPS = {
             "X: how FileManager is filled from the configuration (MainEventLoop::new); observing real files",
         ],
     },
+    "C19": {
+        "units": ["duration", "ratelimit"],
+        "design_ref": "DESIGN.md section 5 C19",
+        "technique": "Verus safety obligations (overflow, division, unwrap, termination) + value contracts on the period parser",
+        "text": "Deductive proof that the period parser, the limiter constructor and its sleep computation have no failing "
+                "arithmetic/division/unwrap obligation for any input, that a period part is number x unit exactly and parts are "
+                "combined by checked addition, and (unit config) that hook-group expansion terminates.",
+        "assumptions": [
+            "T: nom combinators behave as modelled in prelude/nom.rs (take_while_m_n, map_res(digit1,..), fold_many1); str::parse::<u64> is uninterpreted",
+            "T: serde/toml never panic on malformed input (library)",
+            "X: totality of the whole start-up path; hangs in general",
+        ],
+    },
     "C08": {
         "units": ["http"],
         "design_ref": "DESIGN.md section 5 C08",
